@@ -45,14 +45,20 @@ HasKey(k, v) == k \in v.c
 \* that yields several values for one
 RunIfDup(k) == [t |-> "runifdup", k |-> k]
 Dup(st, v) == IF HasKey(st.k, v) THEN <<v, ApplyMap("inc", v)>> ELSE <<v>>
+\* RunIf(select, *inner) with an inner sequence whose result depends on the flow it is run on (Slice, Reverse,
+\* Slice(-1), ...).  Documented meaning ("it feeds values to the sequence one by one"): the inner sequence is run on
+\* each selected value separately, i.e. on the one-value flow [v] - on the run side and on the fill side alike.
+RunIfSeq(p, inner) == [t |-> "runifseq", p |-> p, inner |-> inner]
+InnerRun(st, v) == IF Pred(st.p, v) THEN Sem(st.inner, <<v>>) ELSE <<v>>
 \* post elements that keep nothing between two runs (compute() may then be called again)
-Stateless(post) == \A i \in 1..Len(post) : post[i].t \in {"map", "filter", "slice", "runif", "cfilter", "crunif", "runifdup"}
+Stateless(post) == \A i \in 1..Len(post) : post[i].t \in {"map", "filter", "slice", "runif", "cfilter", "crunif", "runifdup", "runifseq"}
 OnHave2(st, loc, v) ==
   CASE st.t = "cfilter" -> [loc |-> loc, em |-> IF HasKey(st.k, v) THEN <<v>> ELSE <<>>]
     [] st.t = "crunif" -> [loc |-> loc, em |-> IF HasKey(st.k, v)
                                                 THEN (IF st.f = "drop" THEN <<>> ELSE <<ApplyMap(st.f, v)>>)
                                                 ELSE <<v>>]
     [] st.t = "runifdup" -> [loc |-> loc, em |-> Dup(st, v)]
+    [] st.t = "runifseq" -> [loc |-> loc, em |-> InnerRun(st, v)]
     [] OTHER -> OnHave(st, loc, v)
 \* FlowSem.Sem over the extended vocabulary
 RECURSIVE StageRun2(_, _, _, _)
@@ -89,6 +95,7 @@ FillIntoStep(st, loc, v) ==
     [] st.t = "runif" -> [loc |-> loc, stop |-> FALSE,
                           em |-> IF Pred(st.p, v) THEN (IF st.f = "drop" THEN <<>> ELSE <<ApplyMap(st.f, v)>>) ELSE <<v>>]
     [] st.t = "runifdup" -> [loc |-> loc, em |-> Dup(st, v), stop |-> FALSE]
+    [] st.t = "runifseq" -> [loc |-> loc, em |-> InnerRun(st, v), stop |-> FALSE]
     [] st.t = "cfilter" -> [loc |-> loc, em |-> IF HasKey(st.k, v) THEN <<v>> ELSE <<>>, stop |-> FALSE]
     [] st.t = "crunif" -> [loc |-> loc, stop |-> FALSE,
                            em |-> IF HasKey(st.k, v) THEN (IF st.f = "drop" THEN <<>> ELSE <<ApplyMap(st.f, v)>>) ELSE <<v>>]
